@@ -49,6 +49,8 @@ HISTS = {
     # a block whose FIRST column is already known (mask of newly solved columns = [False, True]), then right-hand sides
     # that must be answered from the stored pairs
     "block-mixed": [("N", "new"), ("N", "blockmixed"), ("N", "sum"), ("N", "repeat")],
+    "H-only": [("H", "new")],
+    "T-only": [("T", "new")],
     "cplx-span": [("N", "cplxconst"), ("N", "conjprev"), ("N", "realsum")],
     "x0": [("N", "new"), ("N", "newx0"), ("T", "newx0"), ("N", "blocknewx0")],
 }
@@ -73,7 +75,7 @@ def items(tier):
     for mclass in ("general", "symmetric", "hermitian", "complex-symmetric"):
         for zp in patterns(2, mclass):
             for hname, h in HISTS.items():
-                if hname in ("cplxconst-rhs", "cplx-span"):
+                if hname in ("cplxconst-rhs", "cplx-span", "H-only", "T-only"):
                     continue
                 if hname == "x0" and (mclass != "general" and q or zp and q):
                     continue
@@ -89,6 +91,18 @@ def items(tier):
                 for tol in ((0,) if q else (0, "1e-7")):
                     out.append(dict(kind="history", id="n2-%s-z%s-%s-tol%s" % (mclass, "".join("%d%d" % tuple(p) for p in zp) or "none", hname, tol),
                                     n=2, mclass=mclass, zeros=zp, hist=hname, tol=tol))
+    # complex matrices without any symmetry (adjoint storage with conjugation), decoupled dofs with complex diagonal entries
+    for zp, hn in (([[0, 1], [1, 0]], "NTH"), ([[0, 1], [1, 0]], "H-first"), ([[1, 0]], "T-first")) + \
+            (() if q else (([[0, 1]], "NTH"),)):
+        out.append(dict(kind="history", id="n2-complex-general-z%s-%s-tol0" % ("".join("%d%d" % tuple(p) for p in zp), hn), n=2,
+                        mclass="complex-general", zeros=zp, hist=hn, tol=0, timeout=400))
+    for hn in ("H-only", "T-only"):
+        out.append(dict(kind="history", id="n3-complex-general-realblock-z02201221-%s-tol0" % hn, n=3, mclass="complex-general",
+                        zeros=[[0, 2], [2, 0], [1, 2], [2, 1]], hist=hn, tol=0, real_block=True, timeout=300))
+    if not q:
+        for zp in ([[0, 1], [1, 0], [0, 2], [2, 0]], [[0, 1], [0, 2], [1, 0], [2, 0]]):
+            out.append(dict(kind="history", id="n3-complex-general-z%s-NTH-tol0" % "".join("%d%d" % tuple(p) for p in zp), n=3,
+                            mclass="complex-general", zeros=zp, hist="NTH", tol=0, timeout=900))
     # real matrix, complex right-hand side first, then an independent real one: NumPy's in-place casting rules are
     # modelled (logical dtype mode), "no call fails that would succeed on a fresh wrapper"
     for mclass in ("general", "symmetric"):
@@ -133,15 +147,21 @@ def items(tier):
 def build_matrix(V, cfg, name):
     n, mclass = cfg["n"], cfg["mclass"]
     zeros = set(tuple(p) for p in (cfg["zeros2"] if (name == "B" and "zeros2" in cfg) else cfg["zeros"]))
-    cplx = mclass in ("hermitian", "complex-symmetric")
+    cplx = mclass in ("hermitian", "complex-symmetric", "complex-general")
     A = np.empty((n, n), dtype=object if V.symbolic else (complex if cplx else float))
     for i in range(n):
         for j in range(n):
-            key = (i, j) if mclass == "general" else (min(i, j), max(i, j))
+            key = (i, j) if mclass in ("general", "complex-general") else (min(i, j), max(i, j))
             if i != j and key in zeros:
                 A[i, j] = 0 if V.symbolic else 0.0
                 continue
             nm = "%s_%d_%d" % (name, key[0], key[1])
+            if cfg.get("real_block") and not (i == j and all((i, k) in zeros and (k, i) in zeros for k in range(n) if k != i)):
+                # only the diagonal entries of decoupled dofs are complex, the coupled block is real (keeps the inner
+                # solves decidable while the matrix as a whole is complex without any symmetry)
+                r = V.real(nm, nonzero=True, default=1.0 + 0.5 * i - 0.25 * j)
+                A[i, j] = C(r, 0) if V.symbolic else complex(r)
+                continue
             if not cplx:
                 A[i, j] = V.real(nm, nonzero=True, default=1.0 + 0.5 * i - 0.25 * j)
             elif mclass == "hermitian" and i == j:
@@ -172,7 +192,7 @@ def scenario(V, P, cfg):
     import pymoto as pym
     from pymoto.solvers import LDAWrapper
     n = cfg["n"]
-    cplxA = cfg["mclass"] in ("hermitian", "complex-symmetric")
+    cplxA = cfg["mclass"] in ("hermitian", "complex-symmetric", "complex-general")
     hist = HISTS[cfg["hist"]] if isinstance(cfg["hist"], str) else [tuple(h) for h in cfg["hist"]]
     tol = cfg.get("tol", 0)
     tolv = 0 if tol == 0 else (R.of(tol) if V.symbolic else float(tol))
